@@ -431,14 +431,14 @@ func c07R2(c *Ctx) {
 	}
 	// who feeds the glue caches
 	c.c07WhoMay(R, "call addIPv4Cache", c.CallSites(add4), map[string]string{
-		"(*" + c07res + ".Resolver).checkGlueRR":  "in-bailiwick glue (filters above)",
-		"(*" + c07res + ".Resolver).checkHosts":   "addresses resolved by lookupNSAddrV4",
-		"(*" + c07res + ".Resolver).lookupV4Nss":  "addresses resolved by lookupNSAddrV4",
+		"(*" + c07res + ".Resolver).checkGlueRR": "in-bailiwick glue (filters above)",
+		"(*" + c07res + ".Resolver).checkHosts":  "addresses resolved by lookupNSAddrV4",
+		"(*" + c07res + ".Resolver).lookupV4Nss": "addresses resolved by lookupNSAddrV4",
 	})
 	c.c07WhoMay(R, "call addIPv6Cache", c.CallSites(add6), map[string]string{
-		"(*" + c07res + ".Resolver).checkGlueRR":  "in-bailiwick glue (filters above)",
-		"(*" + c07res + ".Resolver).checkHosts":   "addresses resolved by lookupNSAddrV6",
-		"(*" + c07res + ".Resolver).lookupV6Nss":  "addresses resolved by lookupNSAddrV6",
+		"(*" + c07res + ".Resolver).checkGlueRR": "in-bailiwick glue (filters above)",
+		"(*" + c07res + ".Resolver).checkHosts":  "addresses resolved by lookupNSAddrV6",
+		"(*" + c07res + ".Resolver).lookupV6Nss": "addresses resolved by lookupNSAddrV6",
 	})
 	for _, f := range []string{"glueV4", "glueV6"} {
 		fv := c.field(R, c07res+".Resolver."+f)
@@ -891,7 +891,7 @@ func c07R5(c *Ctx) {
 
 func c07R6(c *Ctx) {
 	const R = "C07-R6"
-	c.Doc(R, "every nil-error return of Resolver.answer crossed clearAdditional or a store resp.Ns ← <checkDname target>.Ns (the two target-proof arms); clearAdditional stores an empty authority section on every path and an Extra built only from the request's own OPT; on the validated arm FilterRRsToZone precedes the AD store")
+	c.Doc(R, "every nil-error return of Resolver.answer crossed clearAdditional (the DNAME target-proof arms included); after clearAdditional the authority section is refilled only from the checkDname target's Ns, never from the outer reply's; clearAdditional stores an empty authority section on every path and an Extra built only from the request's own OPT; on the validated arm FilterRRsToZone precedes the AD store")
 	ans := c.fn(R, c07res+".(*Resolver).answer")
 	clear := c.fobj(R, c07res+".(*Resolver).clearAdditional")
 	checkDname := c.fobj(R, c07res+".(*Resolver).checkDname")
@@ -905,9 +905,22 @@ func c07R6(c *Ctx) {
 		return
 	}
 	targetNs := Contains(c07FieldOf(nsF, Contains(ResultOf(0, checkDname))))
+	// every successful return crossed clearAdditional — the target-proof arms included: a store
+	// `resp.Ns ← append(resp.Ns, target.Ns…)` alone keeps the outer reply's authority and additional
+	// sections exactly as the zone's server put them on the wire (finding F-C07-2)
 	c.MustCross(R, ans, "successful return", isReturnWith(1, IsNilConst),
-		CallBarrier("clearAdditional", clear),
-		StoreBarrier("resp.Ns ← target proof", nsF, targetNs))
+		CallBarrier("clearAdditional", clear))
+	// after clearAdditional the authority section may only be refilled from the validated target's proof
+	outerNs := Contains(c07FieldOf(nsF, func(e *Expr) bool { return c07ParamIdx(3)(strip(e)) || c07Holds(c07ParamIdx(3))(e) }))
+	c.MustCrossFrom(R, ans, "authority section refilled after clearAdditional with anything but the DNAME target's proof",
+		func(in ssa.Instruction) bool { return in.Parent() == ans && isPlainCallTo(clear)(in) },
+		func(in ssa.Instruction) bool {
+			if !isFieldStore(in, nsF, nil) {
+				return false
+			}
+			v := Desc(in.(*ssa.Store).Val)
+			return !targetNs(v) || outerNs(v)
+		})
 	// the cleared message is what is returned / further used
 	for _, in := range instrsWhere(ans, isPlainCallTo(clear)) {
 		key := R + "|answer|clearAdditional operand"
